@@ -70,7 +70,7 @@ def judge(ctx, status: str) -> list[dict]:
         vs.append({"rule": f"C18/{rule}", "message": msg, "signature": sig})
 
     wire = SC.wire_by_case(ctx)
-    stats = {"trees": 0, "cases": 0, "uaf_true": 0, "era_true": 0, "uaf_recorded": 0, "era_recorded": 0, "deletes_ok": 0, "deletes_failed": 0, "transitions": 0}
+    stats = {"trees": 0, "cases": 0, "uaf_true": 0, "uaf_two_deletes": 0, "era_true": 0, "uaf_recorded": 0, "era_recorded": 0, "deletes_ok": 0, "deletes_failed": 0, "transitions": 0}
     # de-duplication model: the engine drops a failure equal to one already seen in the run; UseAfterFree and
     # EnsureResourceAvailability compare equal when type and `operation` (the DELETE / the creating POST) are equal
     seen_uaf_ops: set = set()
@@ -120,11 +120,27 @@ def judge(ctx, status: str) -> list[dict]:
                         v("R1", f"use_after_free reported for {c.rec.request.method} {c.rec.request.path} (status {c.status}) but no earlier DELETE on that "
                                 f"resource succeeded in the scenario tree ({reason}; deletes seen: "
                                 f"{[(x.rec.request.path, x.status) for x in dels][:4]})", what="uaf_false_accusation", reason=reason)
+                if d is not None and any(
+                    x.order < c.order and x.cid != d.cid and x.rec is not None and x.rec.request.method == "DELETE"
+                    and x.status is not None and 200 <= x.status < 300 and not SC.is_segment_prefix(x.segments, c.segments)
+                    for x in nodes.values()
+                ):
+                    stats["uaf_two_deletes"] += 1
                 if rec:
-                    # which operation the engine attributes it to: any DELETE of the tree so far on this path
-                    for x in nodes.values():
-                        if x.order < c.order and x.rec is not None and x.rec.request.method == "DELETE":
-                            seen_uaf_ops.add(x.label)
+                    # which operation the engine attributes it to (the de-duplication key): read it off the recorded
+                    # failure; only if that is impossible fall back to "any DELETE of the tree so far"
+                    attributed = [
+                        getattr(k.failure_info.failure, "operation", None)
+                        for k in e.recorder.checks.get(c.cid, [])
+                        if k.name == "use_after_free" and k.failure_info is not None
+                    ]
+                    attributed = [a for a in attributed if isinstance(a, str)]
+                    if attributed:
+                        seen_uaf_ops.update(attributed)
+                    else:
+                        for x in nodes.values():
+                            if x.order < c.order and x.rec is not None and x.rec.request.method == "DELETE":
+                                seen_uaf_ops.add(x.label)
                 if d is not None and not rec and d.label not in seen_uaf_ops:
                     key = ("R2",)
                     if key not in reported:
